@@ -1,2 +1,93 @@
-(** C04.  Only statements, [exact], and Print Assumptions. *)
-From Sheens Require Import Model.Step.
+(** C04 - A step follows the documented transition rule (action, ordered
+    branches, guards).  Only statements, [exact], and Print Assumptions.
+
+    [StepRule] (Spec/StepRule.v) is the documented rule written as
+    relations over the specification's data: a branch fires when its
+    pattern matches and its guard returns bindings for a candidate;
+    branches are tried in listed order, the first that does not decline
+    decides; message branching consumes the pending message whether or not a
+    branch is taken and does nothing without one; bindings branching never
+    consumes; the node's action runs first and its bindings replace the
+    current ones; an action failure is routed by the error settings.
+    [step] is the model of core.Spec.Step (Model/Step.v), for ANY action
+    type and ANY behaviour [run] of actions and guards, any specification,
+    state (unknown nodes and absent bindings included) and pending message.
+    The correspondence run compares [step] with Spec.Step on every generated
+    (spec, state, message); since rule and model determine each other, a
+    disagreement there is a violation of the rule by the implementation. *)
+From Sheens Require Import Model.Step Spec.StepRule Proofs.StepFacts Proofs.StepRuleProofs.
+
+Section C04.
+Variable action : Type.
+Variable run : action -> option bindings -> exec_raw.
+
+(** the step obeys the rule *)
+Theorem C04_step_follows_rule :
+  forall s st pending,
+  StepRule action run s st pending (outcome_of (step action run s st pending)).
+Proof. exact (step_rule action run). Qed.
+
+(** and the rule admits no other outcome: it is a complete description *)
+Theorem C04_rule_determines_step :
+  forall s st pending o,
+  StepRule action run s st pending o -> outcome_of (step action run s st pending) = o.
+Proof. exact (rule_step action run). Qed.
+
+Theorem C04_rule_functional :
+  forall s st pending o1 o2,
+  StepRule action run s st pending o1 -> StepRule action run s st pending o2 -> o1 = o2.
+Proof. exact (step_rule_functional action run). Qed.
+
+(** ordered branches: what [first_branch] returns is what the in-order rule selects *)
+Theorem C04_branches_in_order :
+  forall brs bs against o,
+  SelectRule action run bs against brs o <->
+  of_try (fst (first_branch action run brs bs against)) = o.
+Proof.
+  intros brs bs against o. split;
+    [exact (rule_first_branch action run brs bs against o)
+    | intros <-; exact (first_branch_rule action run brs bs against)].
+Qed.
+
+(** guards: a guarded branch goes where the first accepted candidate says *)
+Theorem C04_branch_and_guard :
+  forall b bs against o,
+  BranchRule action run b bs against o <->
+  of_try (fst (try_branch action run b bs against)) = o.
+Proof.
+  intros b bs against o. split;
+    [exact (rule_try_branch action run b bs against o)
+    | intros <-; exact (try_branch_rule action run b bs against)].
+Qed.
+
+(** consumption: a stride consumed either nothing or exactly the pending message *)
+Theorem C04_consumes_only_pending :
+  forall s st pending sd,
+  so_stride (step action run s st pending) = Some sd ->
+  sd_consumed sd = None \/ sd_consumed sd = pending.
+Proof. exact (step_consumed action run). Qed.
+End C04.
+
+Print Assumptions C04_step_follows_rule.
+Print Assumptions C04_rule_determines_step.
+Print Assumptions C04_rule_functional.
+Print Assumptions C04_branches_in_order.
+Print Assumptions C04_branch_and_guard.
+Print Assumptions C04_consumes_only_pending.
+
+(** non-vacuity: a node with an action that sets a binding, then two
+    bindings branches of which the second fires *)
+From Sheens Require Import Model.Action.
+Definition ex_spec : aspec :=
+  mk_spec
+    [("start", mk_node (Some (Js (mk_prog [ASet "n" (JNum 8); AEmit (JStr "hi")] TRetBindings))) false
+        (Some (mk_branching "bindings"
+                 [mk_branch (Some (JObj [("n", JNum 4)])) None "one";
+                  mk_branch (Some (JObj [("n", JStr "?v")])) None "two"])))]
+    false "" true.
+Example C04_nonvacuous :
+  outcome_of (astep ex_spec (mk_state "start" (Some [])) None)
+  = (Some (mk_stride (mk_state "start" (Some []))
+                     (Some (mk_state "two" (Some [("?v", JNum 8); ("n", JNum 8)])))
+                     None [JStr "hi"]), None).
+Proof. vm_compute. reflexivity. Qed.
